@@ -15,7 +15,10 @@ RULE = (
     'composition of the public primitives, loop-level w^H x, stacked call vs '
     'per-slice calls for every beamforming function, phase_correction '
     'identities per leading index (F >= 3, incl. zero and orthogonal '
-    'neighbours), Souden/WMWF on any subset of bins made singular or zero. '
+    'neighbours), Souden/WMWF on any subset of bins made singular or zero; '
+    'the remaining public functions (zero_degree / distortionless '
+    'normalisation, SNR post-filter, online apply, get_pca with all vectors, '
+    'LCMV, rank-one estimates) against loop formulas and bin by bin. '
     'Non-trivial: an extra leading axis or F >= 3 with a composed name. '
     'Distinct = distinct recorded choice sequence.'
 )
@@ -271,6 +274,116 @@ def apply_and_stack(d, ctx):
             ref = np.array([w[idx].conj() @ x[idx][:, t] for t in range(T)])
             require_close(full[idx], ref, 'apply-is-not-w^H-x', rtol=1e-12, atol=1e-300)
     ctx.nontrivial(True)
+
+
+@subcheck(SUBCHECKS, 'auxiliary_functions', quick=500, thorough=8000)
+def auxiliary_functions(d, ctx):
+    """the remaining public beamforming functions: loop-level formula and
+    stack == individual problems (over the bin axis for the functions whose
+    signature has one leading axis only)"""
+    bf, bw = _mods()
+    which = d.choice(['zero_degree', 'distortionless', 'snr_postfilter', 'online',
+                      'get_pca', 'lcmv', 'rank_one_pca', 'rank_one_gev'])
+    F = d.int(1, 8)
+    D = d.int(2, 6)
+    T = d.int(1, 7)
+    rng = d.rng()
+    extra = tuple(d.int(1, 3) for _ in range(d.int(0, 2))) \
+        if which in ('zero_degree', 'get_pca', 'rank_one_pca', 'rank_one_gev') else ()
+    xx, nn, cond = _problem(d, rng, extra, F, D)
+    w = gen.cnormal(rng, (*extra, F, D))
+    a = gen.cnormal(rng, (*extra, F, D))
+    ctx.describe(which=which, extra=extra, F=F, D=D, T=T)
+    ctx.label(which, f'extra={len(extra)}')
+    tol = dict(rtol=1e-9 * cond, atol=1e-300)
+    f = d.int(0, F - 1)
+    one = slice(f, f + 1)
+    if which == 'zero_degree':
+        ref = d.int(0, D - 1)
+        ref_arg = ref - D if d.bool() else ref
+        out = ctx.lib(bf.zero_degree_normalization, w, ref_arg)
+        require(np.shape(out) == w.shape, 'zero-degree-shape', f'{np.shape(out)}')
+        require_close(np.abs(out), np.abs(w), 'zero-degree-changes-magnitudes', rtol=1e-12)
+        require(np.max(np.abs(out[..., ref].imag)) <= 1e-12 * np.max(np.abs(w)) and
+                np.all(out[..., ref].real >= 0),
+                'zero-degree-reference-channel-not-real-non-negative', '')
+        # one common phase factor per vector
+        ratio = out * np.abs(w[..., [ref]]) - w * np.conj(w[..., [ref]])
+        require(np.max(np.abs(ratio)) <= 1e-10 * np.max(np.abs(w)) ** 2,
+                'zero-degree-not-a-common-phase-factor', f'{np.max(np.abs(ratio)):.3e}')
+        for idx in np.ndindex(*extra, F):
+            require_close(out[idx], ctx.lib(bf.zero_degree_normalization, w[idx], ref_arg),
+                          'stack-differs-from-slice', rtol=1e-12, which=which)
+    elif which == 'distortionless':
+        out = ctx.lib(bf.distortionless_normalization, w, a, nn)
+        exp = np.empty((F, D), dtype=complex)
+        for i in range(F):
+            exp[i] = (nn[i] @ w[i]) * (w[i].conj() @ a[i]) / (w[i].conj() @ nn[i] @ w[i])
+        require_close(out, exp, 'distortionless-normalization-formula', **tol)
+        require_close(out[one], ctx.lib(bf.distortionless_normalization, w[one], a[one], nn[one]),
+                      'bins-are-not-independent', which=which, **tol)
+    elif which == 'snr_postfilter':
+        out = ctx.lib(bf.mvdr_snr_postfilter, w, xx, nn)
+        exp = np.array([[(w[i].conj() @ xx[i] @ w[i]) / (w[i].conj() @ nn[i] @ w[i])]
+                        for i in range(F)])
+        require_close(out, exp, 'snr-postfilter-formula', **tol)
+        require_close(out[one], ctx.lib(bf.mvdr_snr_postfilter, w[one], xx[one], nn[one]),
+                      'bins-are-not-independent', which=which, **tol)
+    elif which == 'online':
+        v = gen.cnormal(rng, (T, F, D))
+        x = gen.cnormal(rng, (F, D, T))
+        out = ctx.lib(bf.apply_online_beamforming_vector, v, x)
+        exp = np.array([[v[t, i].conj() @ x[i, :, t] for t in range(T)] for i in range(F)])
+        require_close(out, exp, 'online-apply-is-not-w_t^H-x_t', rtol=1e-12, atol=1e-300)
+        require_close(out[one], ctx.lib(bf.apply_online_beamforming_vector, v[:, one], x[one]),
+                      'bins-are-not-independent', rtol=1e-12, atol=1e-300, which=which)
+    elif which == 'get_pca':
+        all_vecs = d.bool()
+        vec, val = ctx.lib(bf.get_pca, xx, return_all_vecs=all_vecs)
+        for idx in np.ndindex(*extra, F):
+            ev, U = np.linalg.eigh(xx[idx])
+            if all_vecs:
+                require(np.shape(vec) == xx.shape and np.shape(val) == xx.shape[:-1],
+                        'get-pca-shape', f'{np.shape(vec)} {np.shape(val)}')
+                require_close(val[idx], ev, 'get-pca-eigenvalues', rtol=1e-10 * cond)
+                res = xx[idx] @ vec[idx] - vec[idx] * val[idx][None, :]
+                require(np.max(np.abs(res)) <= 1e-9 * cond * ev.max(),
+                        'get-pca-not-eigenvectors', f'{np.max(np.abs(res)):.3e}')
+            else:
+                require(np.shape(vec) == xx.shape[:-1] and np.shape(val) == xx.shape[:-2],
+                        'get-pca-shape', f'{np.shape(vec)} {np.shape(val)}')
+                require_close(val[idx], ev[-1], 'get-pca-eigenvalues', rtol=1e-10 * cond)
+                res = xx[idx] @ vec[idx] - ev[-1] * vec[idx]
+                require(np.max(np.abs(res)) <= 1e-9 * cond * ev.max(),
+                        'get-pca-not-eigenvectors', f'{np.max(np.abs(res)):.3e}')
+            v1, e1 = ctx.lib(bf.get_pca, xx[idx], return_all_vecs=all_vecs)
+            require_close(val[idx], e1, 'stack-differs-from-slice', rtol=1e-10 * cond,
+                          which=which)
+    elif which == 'lcmv':
+        K = d.int(1, min(3, D - 1))
+        atf = gen.cnormal(rng, (K, F, D))
+        resp = np.zeros(K)
+        resp[d.int(0, K - 1)] = 1.0
+        out = ctx.lib(bf.get_lcmv_vector, atf, resp, nn)
+        got = np.einsum('fd,kfd->kf', out.conj(), atf)
+        require_close(got, np.broadcast_to(resp[:, None], (K, F)),
+                      'lcmv-constraints', rtol=0, atol=1e-5 * cond)
+        require_close(out[one], ctx.lib(bf.get_lcmv_vector, atf[:, one], resp, nn[one]),
+                      'bins-are-not-independent', rtol=1e-5 * cond, atol=1e-300, which=which)
+    else:
+        if which == 'rank_one_pca':
+            call = lambda sl: bw.get_pca_rank_one_estimate(xx[sl])           # noqa
+        else:
+            call = lambda sl: bw.get_gev_rank_one_estimate(xx[sl], nn[sl])   # noqa
+        full = ctx.lib(call, ())
+        require(np.shape(full) == xx.shape, 'rank-one-shape', f'{np.shape(full)}')
+        for idx in np.ndindex(*extra):
+            require_close(full[idx], ctx.lib(call, idx), 'stack-differs-from-slice',
+                          rtol=1e-7 * cond, atol=1e-300, which=which)
+        sl = (*[slice(None)] * len(extra), one)
+        require_close(full[sl], ctx.lib(call, sl), 'bins-are-not-independent',
+                      rtol=1e-7 * cond, atol=1e-300, which=which)
+    ctx.nontrivial(F >= 2 or len(extra) > 0)
 
 
 @subcheck(SUBCHECKS, 'phase_correction', quick=600, thorough=10000)
